@@ -406,7 +406,7 @@ fn main() {
 
     // ---- 1. generated programs
     let mut rng = Rng::new(args.seed);
-    let n = if args.thorough() { 200000 } else { 8000 };
+    let n = if args.thorough() { 150000 } else { 8000 };
     let mut rejected: std::collections::BTreeMap<String, u64> = Default::default();
     let mut made = 0;
     while made < n {
@@ -423,7 +423,7 @@ fn main() {
         }
     }
     // ---- 2. (K2) mechanism model vs the real runtime
-    let n_mech = if args.thorough() { 60000 } else { 2500 };
+    let n_mech = if args.thorough() { 40000 } else { 2500 };
     let mut rng2 = Rng::new(args.seed ^ 0x5eed_c04);
     for _ in 0..n_mech {
         let mut r = rng2.fork();
